@@ -149,13 +149,13 @@ func assertASTIsVarAssignBlock(ast *syntax.Program) ([]*syntax.VarAssignExpr, bo
 // 令销量 = 300
 // 输出客单价 * 销量  ->  8400
 func ExecVarInputText(source string) (r.ElementMap, error) {
-	vm := r.InitVM(globalValues)
+	vm := r.InitVM(newGlobalValues())
 
 	return evalVarAssignBlockText(vm, source)
 }
 
 func ExecExpressionInputText(exprStrMap map[string]string) (r.ElementMap, error) {
-	vm := r.InitVM(globalValues)
+	vm := r.InitVM(newGlobalValues())
 	result := make(map[string]r.Element)
 	// evaluate in a fixed (alphabetical) order: which error is reported must not
 	// depend on the iteration order of the map
